@@ -263,7 +263,7 @@ class C09:
                     return
                 loose = True
             else:
-                loose = g.loose_strings
+                loose = False          # gcc and clang agree to the byte, spacing inside string literals included: compare strictly
             rx, tx, ex, tox, raw = pptok.cpp(ctx.tree, 'chibicc', p, timeout=10)
             nt = core.shash(src) if (g.feat & {'nested-call', '#', '##', 'raw-macro-name', 'variadic', 'multi-line-invocation', 'empty-arg', '#va', ',##va', '__VA_OPT__', 'redefine', 'undef'}) else None
             for f in g.feat:
